@@ -15,7 +15,8 @@
 (***************************************************************************)
 EXTENDS Naturals, Sequences, FiniteSets, TLC, Json, IOUtils, SequencesExt
 
-Regions == {"top", "sect1block", "sect1indent", "sect2decl", "action", "actionbrace", "actionbar", "actiondollarbar", "sect3"}
+Regions == {"top", "sect1block", "sect1indent", "sect2decl", "action", "actionbrace", "actionbar", "actiondollarbar", "sect3", "topheader"}
+\* (topheader: the %top text as a second translation unit gets it through the generated header file)
 \* (actiondollarbar: the action of a rule ending in $ that follows a rule with a | action)
 \* what m4, the skeleton and flex's own scanner treat specially
 Tokens == {"[[", "]]", "]]]", "[[[", "m4_define([[x]],[[y]])", "m4_dnl", "M4_YY_NOOP", "M4_MODE_PREFIX", "yyless(1", "$1", "$@", "`'",
